@@ -46,6 +46,14 @@ def programs(tier):
                                           "label": f"calls={combo} total={total} abandon={abandon} "
                                                    f"cancel={cancel} limiter={lim} shield={shield}"})
     progs.extend(shield_inner_programs(tier))
+    # the call that is cancelled is the one still queueing for the limiter
+    for combo in (("gate", "ret"), ("gate", "gate")):
+        for abandon in (False, True):
+            progs.append({"custom": "mc.families.c14_threads:build", "calls": list(combo),
+                          "total": 1, "abandon": abandon, "cancel": 1, "limiter": "explicit",
+                          "shield_caller": False,
+                          "label": f"calls={combo} total=1 abandon={abandon} cancel=1 (the call "
+                                   f"waiting for a token)"})
     return progs
 
 
@@ -194,8 +202,11 @@ def build(world, program):
                 ctl.add_action(f"gate:{i}", lambda i=i: gates.__setitem__(i, True))
         if program["cancel"] is not None:
             c = program["cancel"]
-            ctl.add_action(f"cancel:{c}", lambda c=c: scopes[c].cancel(),
-                           enabled=lambda c=c: c in scopes)
+            def do_cancel(c=c):
+                if program["limiter"] == "explicit":
+                    log("cancel_at", c, limiter.statistics().tasks_waiting, limiter.borrowed_tokens)
+                scopes[c].cancel()
+            ctl.add_action(f"cancel:{c}", do_cancel, enabled=lambda c=c: c in scopes)
         try:
             async with anyio.create_task_group() as tg:
                 for i, kind in enumerate(calls):
@@ -276,6 +287,30 @@ def check(program, ex):
             elif silent:
                 v.append(f"call {i}: from_thread.check_cancelled() did not raise after the "
                          f"caller's scope was cancelled")
+    # a caller cancelled while it is still waiting for a limiter token gives up at once and its
+    # function never runs
+    for k, e in enumerate(log):
+        if e[2] != "cancel_at":
+            continue
+        c, waiting = e[3], e[4]
+        others_running = [j for j in range(len(calls)) if j != c
+                          and any(x[2] == "fn_start" and x[3] == j for x in log[:k])
+                          and not any(x[2] == "fn_end" and x[3] == j for x in log[:k])]
+        c_started = any(x[2] == "fn_start" and x[3] == c for x in log[:k])
+        if waiting >= 1 and total == 1 and others_running and not c_started:
+            r = results.get(c)
+            if any(x[2] == "fn_start" and x[3] == c for x in log[k:]):
+                v.append(f"call {c} was cancelled while waiting for a limiter token but its "
+                         f"function was run afterwards")
+            if r is not None and r[0] == "ok":
+                v.append(f"call {c} was cancelled while waiting for a limiter token but "
+                         f"run_sync returned normally")
+            ends = [j for j, x in enumerate(log) if x[2] == "result" and x[3] == c]
+            # (the token is back once the other caller's run_sync() has returned)
+            rel = [j for j, x in enumerate(log) if x[2] == "result" and x[3] in others_running]
+            if ends and rel and ends[0] > rel[0] and r is not None and r[0] != "ok":
+                v.append(f"call {c}: cancelled while waiting for a limiter token, but only "
+                         f"gave up after the token had been released (it waited behind a shield)")
     fin = [e for e in log if e[2] == "final"]
     if fin:
         if fin[0][3] != 0:
